@@ -47,9 +47,11 @@ var (
 	amtT  = new(big.Int).Mul(big.NewInt(3), lemo)
 	amtU  = new(big.Int).Mul(big.NewInt(5), lemo)
 	amtR  = new(big.Int).Mul(big.NewInt(7), lemo)
+	amtN  = new(big.Int).Mul(big.NewInt(11), lemo)
 	rcptT = common.HexToAddress("0x0000000000000000000000000000000000c04a01")
 	rcptU = common.HexToAddress("0x0000000000000000000000000000000000c04a02")
 	rcptR = common.HexToAddress("0x0000000000000000000000000000000000c04a03")
+	rcptN = common.HexToAddress("0x0000000000000000000000000000000000c04a04")
 )
 
 // Universe builds t, t2 (re-encoded t), u, the boxes b=[t], bb=[t,t], bu=[t,u] and w=[t] (another box around the same t), each
@@ -73,6 +75,14 @@ func Universe(w *node.World, expT, expU uint64) *txguard.Universe {
 	u.Add("r2", rr[1])
 	// t3: t with a signature appended by somebody else
 	u.Add("t3", txguard.ExtraSig(t, w.Outsider))
+	// the transaction's OWN carrier (txguard/own.go): n = a transfer whose sender left the optional gasPayer member out and signed it so;
+	// tv / nv = t / n written again by somebody else in another form of their own RLP / JSON (optional, defaulted, derivable members
+	// dropped, defaulted or written redundantly; the signature bytes are the sender's), one real transaction per form; bv = a box around
+	// t written that way
+	u.Add("n", txguard.SignedWithoutGasPayer(w.FounderKey, rcptN, amtN, expT, node.ChainID, "n"))
+	u.AddOwn("tv", "t", txguard.OwnEncs)
+	u.AddOwn("nv", "n", txguard.OwnEncs)
+	u.AddOwnBox("bv", w.FounderKey, expT, node.ChainID, txguard.OwnEncs, "tv")
 	return u
 }
 
@@ -116,7 +126,7 @@ func Counts(db protocol.ChainDB, h common.Hash) map[string]int64 {
 		id   string
 		addr common.Address
 		amt  *big.Int
-	}{{"t", rcptT, amtT}, {"u", rcptU, amtU}, {"r", rcptR, amtR}} {
+	}{{"t", rcptT, amtT}, {"u", rcptU, amtU}, {"r", rcptR, amtR}, {"n", rcptN, amtN}} {
 		q, r := new(big.Int).QuoRem(am.GetAccount(x.addr).GetBalance(), x.amt, new(big.Int))
 		if r.Sign() != 0 {
 			engine.Failf("recipient balance of %s is not a multiple of the amount", x.id)
@@ -253,7 +263,7 @@ func (a *adapter) Reset(init map[string]tla.Value) (engine.Fields, error) {
 	e := init["exp"]
 	if a.u == nil || a.ukey != e.String() {
 		g := uint64(a.w.GenesisTime)
-		for _, id := range []string{"t2", "b", "bb", "bu", "w", "r", "r2", "t3"} {
+		for _, id := range []string{"t2", "b", "bb", "bu", "w", "r", "r2", "t3", "tv", "bv", "n", "nv"} {
 			if e.F(id).I() != e.F("t").I() {
 				engine.Failf("the spec must give %s the expiration of t", id)
 			}
